@@ -59,6 +59,10 @@ def run(tier):
     rnd = random.Random(common.seed() * 31 + 7)
     # a generated source over the documented grammar: offsets west and east of UTC that are not multiples of the basic granularity
     sources.append(('gen', compiler.gen_source(rnd, 80 if tier == 'thorough' else 40)))
+    # zone names that differ only in characters the generators map to '_': whatever is emitted must be one table per name
+    sources.append(('similar', ['Zone\tTest/Foo-Bar\t1:00\t-\tTST', 'Zone\tTest/Foo_Bar\t2:00\t-\tUST', 'Zone\tTest/Other\t3:00\t-\tVST',
+                                'Rule\tSim\t1995\tmax\t-\tMar\tlastSun\t2:00\t1:00\tD', 'Rule\tSim\t1995\tmax\t-\tOct\tlastSun\t2:00\t0\tS',
+                                'Zone\tTest/With-Rules\t4:00\tSim\tW%sT', 'Zone\tTest/Plain\t5:00\t-\tPLN', 'Link\tTest/Other\tTest/Elsewhere']))
     runs = []
     pairs = []
     progs = 0
